@@ -98,6 +98,7 @@ def showRef (r : Ref) : String :=
 def showCol : Col → String
   | .single n i => (match i with | some i => showName i ++ "." | none => "") ++ (match n with | some n => showName n | none => "?")
   | .all i => showName i ++ ".*"
+  | .thatSingle n i => "that." ++ (match i with | some i => showName i ++ "." | none => "") ++ (match n with | some n => showName n | none => "?")
 
 def showErr : ScopeErr → String
   | .unknown r => "err unknown " ++ showRef r
@@ -121,6 +122,7 @@ def handle (fields : List String) : Option String :=
       let env : Env := { globals := globals.map String.toList ++ Gen.stdTopLevel }
       match resolve env fr r with
       | .ok (.column i n) => some ("ok column " ++ (match i with | some i => showName i | none => "-") ++ "." ++ showName n)
+      | .ok (.thatColumn i n) => some ("ok that-column " ++ (match i with | some i => showName i | none => "-") ++ "." ++ showName n)
       | .ok (.inferred i n) => some ("ok inferred " ++ showName i ++ "." ++ showName n)
       | .ok (.global n) => some ("ok global " ++ showName n)
       | .error (.unknown _) => some "err unknown"
